@@ -444,7 +444,7 @@ impl Prop for C11 {
          shortest round-tripping decimal, and in the plain-notation range equal the model's text. Layout: 1..4 PRINT \
          statements on one direct line (so the column carries across statements) with up to 6 items each from strings \
          (ASCII and multi-byte), plain-range numbers, TAB(0..60), SPC(0..20), POS(0), separated by ';', ',' or \
-         juxtaposition, with and without trailing separator; the complete output must equal a column-tracking model \
+         juxtaposition, with and without trailing separator; INPUT statements in between and line feeds inside string values; the complete output must equal a column-tracking model \
          (zones of 14, TAB only forward, POS = characters since the last newline). Distinct = hash of the statement \
          text; non-trivial = a non-Integer number, or at least two different item kinds."
     }
